@@ -17,8 +17,10 @@ What is proved, for every grammar, table, input and recognizer behaviour:
 * the GLR driver itself, as modelled in `Model/GLR.lean` (graph-structured stack, shared
   heads, packed links, clones per lookahead token, limited re-reductions, revisits of
   traversed heads, shifts ordered by token end): whenever it answers with a forest the
-  input is a sentence (`C01_glr_model_sound`), whatever the fuel, for every well-formed
-  table, every input and every recognizer behaviour with idempotent layout skipping.
+  input is a sentence (`C01_glr_model_sound`) and every tree of its packed forest is a
+  parse tree of the input (`C01_glr_model_forest_sound`), whatever the fuel, for every
+  well-formed table, every input and every recognizer behaviour with idempotent layout
+  skipping.
   The model is tied to `glr.py` by exact correspondence of its packed forests.
 What the implementation's forests contain is judged by the verified checkers on its
 outputs; see DESIGN.md for what stays bounded.
@@ -56,6 +58,18 @@ theorem C01_glr_model_sound (g : Grammar) (T : Table) (inp : Input) (hw : T.wf g
     (h : GLR.parseGLR g T inp true lexDis fuel = .forest sF) : Sentence g inp :=
   (GLR.parseGLR_sound hw hidem true lexDis fuel sF h).2 rfl
 
+/-- **Soundness of the packed forest of the GLR driver model**: when the model answers with a forest,
+every tree obtained from it — one possibility chosen per link, starting at any link of an accepted
+head (the links `Forest.__init__` merges into the root) — is a parse tree of the input. For every
+grammar, well-formed table, input, recognizer behaviour (layout skipping idempotent), lexical mode
+and fuel. -/
+theorem C01_glr_model_forest_sound (g : Grammar) (T : Table) (inp : Input) (hw : T.wf g = true)
+    (hidem : ∀ p, inp.skip (inp.skip p) = inp.skip p) (lexDis : Bool) (fuel : Nat) (sF : GLR.GState)
+    (h : GLR.parseGLR g T inp true lexDis fuel = .forest sF)
+    (a : Nat) (ha : a ∈ sF.accepted) (l : Nat) (hl : l ∈ sF.parents a) (t : Tree) (ht : GLR.TreeOf sF l t) :
+    IsParseOf g inp t :=
+  (GLR.parseGLR_forest_sound hw hidem true lexDis fuel sF h a ha l hl t ht).2 rfl
+
 /-- The same on the data the driver decodes: both hypotheses are the Boolean checks the driver
 evaluates for every table and input of a run (`wf`, `skipidem`). -/
 theorem C01_glr_model_sound_on_decoded_data (g : Grammar) (states : Array StateData) (terms : Array (Nat × Bool))
@@ -85,6 +99,14 @@ def c01I : Input where
 
 example : c01T.wf c01G = true ∧ (∀ p, c01I.skip (c01I.skip p) = c01I.skip p) := ⟨by decide, fun _ => rfl⟩
 example : (match GLR.parseGLR c01G c01T c01I true false 20 with | .forest _ => true | _ => false) = true := by
+  decide +kernel
+/-- … and the root link of that forest packs the production `S → a` over the link of the token. -/
+example : (match GLR.parseGLR c01G c01T c01I true false 20 with
+    | .forest s => s.accepted.any (fun a => (s.parents a).any (fun l =>
+        (s.link l).poss.any (fun p => match p with
+          | .nonterm 1 [k] => (s.link k).poss.any (fun q => match q with | .term 1 0 1 => true | _ => false)
+          | _ => false)))
+    | _ => false) = true := by
   decide +kernel
 
 end Pg
